@@ -9,13 +9,13 @@ use std::panic::{AssertUnwindSafe, catch_unwind};
 use bump_scope::traits::{BumpAllocatorCore, BumpAllocatorTypedScope, MutBumpAllocatorCoreScope};
 use bump_scope::{BumpBox, BumpVec, FixedBumpVec, MutBumpVec, MutBumpVecRev};
 
-use crate::api::{Info, StatsSnap, snap_any};
-use crate::arena::{Rec, pick};
-use crate::arena_cells::cells;
+use bsv_core::common::{Info, StatsSnap, snap_any};
+use bsv_core::common::{Rec, pick};
+use bsv_cells::cells;
 use crate::coll_api::*;
-use crate::elem::{Elem, Tr, Tr32, TrZ, reg_reset, with_reg};
-use crate::runner::{CaseReport, CaseResult, Engine, Failure, Marker, panic_message};
-use crate::talloc::{self, FaultPlan, GrantPolicy, with_ctx};
+use bsv_core::elem::{Elem, Tr, Tr32, TrZ, reg_reset, with_reg};
+use bsv_core::runner::{CaseReport, CaseResult, Engine, Failure, Marker, panic_message};
+use bsv_core::talloc::{self, FaultPlan, GrantPolicy, with_ctx};
 
 #[derive(Clone, Copy, Debug, PartialEq, Eq)]
 pub enum CMix {
@@ -847,7 +847,7 @@ fn step<'b, T: Elem + Clone + PartialEq>(st: &mut St, l: &mut Live<'b, T>, op: &
 }
 
 fn fnv_op(op: &Op) -> u64 {
-    crate::runner::fnv(format!("{op:?}").as_bytes())
+    bsv_core::runner::fnv(format!("{op:?}").as_bytes())
 }
 
 fn run_shared<'a: 'b, 'b, T: Elem + Clone + PartialEq>(st: &mut St, h: &Hdr, a: &'b (dyn MutBumpAllocatorCoreScope<'a> + 'a), info: Info) {
